@@ -462,6 +462,18 @@ class LogicConv3d(_PersistentWiring, nn.Module):
         self.indices = self.get_indices_from_kernel_pairs(self.kernel_pairs)
 
 
+    def _level_weights(self, level):
+        """Gate weights of one tree level: (nodes, kernels, 16)."""
+        if not self.training:
+            # eval mode: the most probable gate is the one with the largest logit
+            return torch.stack(
+                [torch.nn.functional.one_hot(w.argmax(-1), 16).to(torch.float32)
+                 for w in self.tree_weights[level]], dim=0
+            )
+        return torch.stack(
+            [torch.nn.functional.softmax(w, dim=-1) for w in self.tree_weights[level]], dim=0
+        )
+
     def forward(self, x):
         """Implement the binary tree using the pre-selected indices."""
         assert x.ndim == 5 and tuple(x.shape[1:]) == (self.channels, *self.in_dim), (
@@ -496,36 +508,14 @@ class LogicConv3d(_PersistentWiring, nn.Module):
         b = current_level[:, b_c, b_h, b_w, b_d]
 
         # Process first level
-        level_weights = torch.stack(
-            [torch.nn.functional.softmax(w, dim=-1) for w in self.tree_weights[0]],
-            dim=0,
-        )
-        if not self.training:
-            level_weights = torch.nn.functional.one_hot(level_weights.argmax(-1), 16).to(
-                torch.float32
-            )
-
-        current_level = bin_op_cnn(a, b, level_weights)
+        current_level = bin_op_cnn(a, b, self._level_weights(0))
 
         # Process remaining levels
         for level in range(1, self.tree_depth + 1):
             left_indices, right_indices = self.indices[level]
             a = current_level[..., left_indices]
             b = current_level[..., right_indices]
-            level_weights = torch.stack(
-                [
-                    torch.nn.functional.softmax(w, dim=-1)
-                    for w in self.tree_weights[level]
-                ],
-                dim=0,
-            )
-
-            if not self.training:
-                level_weights = torch.nn.functional.one_hot(level_weights.argmax(-1), 16).to(
-                    torch.float32
-                )
-
-            current_level = bin_op_cnn(a, b, level_weights)
+            current_level = bin_op_cnn(a, b, self._level_weights(level))
 
         # Reshape flattened output
         reshape_h = (self.in_dim[0] + 2*self.padding - self.receptive_field_size[0]) // self.stride + 1
